@@ -735,14 +735,13 @@ impl World {
         let kheap = ent.as_ref().map(|e| e.kheap).unwrap_or(0);
         let new_vheap = self.resolve_vheap(size, k, kheap, true);
         if let Some(e) = &ent {
-            // domain: every sum of size estimates the cache has to form is
-            // representable. A growth that still fits max_size but lifts the
-            // transient total (before older entries are evicted) past
-            // usize::MAX is outside it: the unchanged crate overflows there too
-            let total = self.side().model.total();
-            if new_vheap > e.vheap && total.checked_add(new_vheap - e.vheap).is_none() {
+            // an entry whose recorded size exceeds its true size (a clone of a
+            // value with spare capacity measures less than its source: a size
+            // change outside mutate, which C02 excludes): recorded size plus
+            // growth must still be a number
+            if new_vheap > e.vheap && e.size.checked_add(new_vheap - e.vheap).is_none() {
                 self.stats.skipped += 1;
-                self.stats.ev("mutate.skipped-transient-overflow");
+                self.stats.ev("mutate.skipped-recorded-overflow");
                 self.pending_inject = None;
                 return;
             }
@@ -1025,11 +1024,20 @@ impl World {
 
     fn do_clear(&mut self) {
         let pre = self.pre();
-        self.pending_inject = None;
+        // the only user code clear() runs are destructors
+        let inj = self.injected().filter(|i| i.0.is_drop());
+        self.pending_inject = inj;
         self.log("clear".into());
         let run = self.run(&[], |c| c.clear());
         if let Some(msg) = &run.panic {
-            self.unexpected_panic("clear", msg);
+            if run.injected {
+                let (cb, nth, _) = inj.unwrap();
+                let all: BTreeSet<u16> = pre.ents.iter().map(|e| e.k).collect();
+                self.after_injected_panic(&pre, "clear", cb, nth, &all, false);
+            }
+            else {
+                self.unexpected_panic("clear", msg);
+            }
             return;
         }
         let gone = self.side_mut().model.clear();
